@@ -1,7 +1,7 @@
 SPECIFICATION GSpec
 CONSTANTS Kinds = {"main", "inc1", "inc2", "inc_2nd", "inc2_2nd", "after_2inc", "after_inc", "inherit", "funlit", "anonfn", "init"}
   Lines = {0, 1, 7, 300, 1000}
-  Pads = {"none", "short", "long", "long2"}
+  Pads = {"none", "short", "long", "long2", "contdef", "mlcall", "mlcomment", "ifdef"}
   Depths = {1, 2, 3}
   Sim = FALSE
 INVARIANT Emit
